@@ -167,6 +167,7 @@ type Knobs struct {
 	EchoIDBase      uint32 `json:"echoIDBase,omitempty"`
 	SetEchoIDBase   bool   `json:"setEchoIDBase,omitempty"`
 	RandSeed        int64  `json:"randSeed,omitempty"`
+	FrameNoise      int    `json:"frameNoise,omitempty"` // frames synthesised around each installed filter's configuration (C12)
 	FreshCache      bool   `json:"freshCache,omitempty"` // false keeps the cache of the previous call in the same scenario only
 }
 
